@@ -78,8 +78,11 @@ def run(res, replay=None):
         grid = [i * 0.125 for i in range(0, 321)]      # for the integral of the survival function (up to t = 40)
         far = max(bs) + 1.5
         scal = ts[:3] + [far]
+        # every other case asks its quantiles with a documented NON-DEFAULT expansion factor of the bracket search (any factor > 1 is valid;
+        # the returned time has to meet the same precision) - by position, not by a random draw
+        qkw = {} if len(cases) % 2 == 0 else {'kw': {'expansion_factor': [1.5, 3.0, 4.0, 10.0][(len(cases) // 2) % 4]}}
         ops = [{'kind': 'cdf', 'ts': ts}] + [{'kind': 'cdf', 'ts': [t]} for t in scal] + \
-              [{'kind': 'quantile', 'q': q} for q in qs_levels] + \
+              [dict({'kind': 'quantile', 'q': q}, **qkw) for q in qs_levels] + \
               [{'kind': 'pdf', 'ts': [0.25, 1.0, 2.5, 0.0], 'dx': 2.0 ** -12}, {'kind': 'attr', 'path': 'tree_height.mean'},
                {'kind': 'cdf', 'ts': grid}, {'kind': 'cdf', 'ts': [1e3 * s.get('time_scale', 1.0), 1e4 * s.get('time_scale', 1.0)]}]
         cases.append({'spec': s, 'ops': ops, 'ts': ts, 'far_pos': ts.index(far)})
